@@ -322,6 +322,11 @@ def run(ctx):
     stmts += [("common_parser", "select a from t where c1 between 7 or c2"), ("common_parser", "select c1 not between 3 from t"),
               ("common_parser", "select c1[1].q2[3] from t"), ("common_parser", "select c1::int[2] from t"), ("common_parser", "select c1 #> c2 from t9"),
               ("common_parser", "select sum(x1) over (partition by p1 w2) from t3"), ("common_parser", "create index xi1 on xt2 (xa3) xo5 xo6")]
+    # every tail clause after a set operation, alone and in combination (each has its own slot in to_union_call)
+    for tail in ("order by a1", "limit 7", "offset 3", "fetch first 5 rows only", "for update of t1", "order by a1 fetch first 5 rows only", "limit 7 for update of t1",
+                 "order by a1 limit 7 offset 3", "order by a1 offset 3 rows fetch next 5 rows only"):
+        stmts.append(("common_parser", "select a1 from t1 union select b1 from u1 " + tail))
+        stmts.append(("common_parser", "select a1 from t1 union all select b1 from u1 intersect select c1 from v1 " + tail))
     for entry, sql in stmts:
         f = impl.ENTRY[entry]
         st, _ = impl.outcome(f, sql)
